@@ -3,6 +3,7 @@
 From Coq Require Import ZArith List Bool.
 From NS Require Import Base.NoteSeq Gen.G10 Model.ChordTranspose Model.Transpose
                        Proofs.TransposeChord Proofs.Transpose.
+From NS Require Gen.Tr Proofs.TrEquiv10.
 Import ListNotations.
 Local Open Scope Z_scope.
 
@@ -287,3 +288,18 @@ Example C10_melody_nonvacuous :
   mel_squash 60 101 (Some 0) [60; 62; 64] = (24, [84; 86; 88]).
 Proof. repeat split; reflexivity. Qed.
 Print Assumptions C10_melody_nonvacuous.
+
+(** Source-level tie (second kind): the Gallina text re-translated from the SOURCE of
+    sequences_lib._clamp_transpose on every run (Gen/Tr.v, harness/vt/pytr.py) equals the
+    hand-written model, for all arguments. *)
+Theorem C10_source_clamp_transpose : forall a ns_min ns_max lo hi,
+  NS.Gen.Tr.tr_clamp_transpose a ns_min ns_max lo hi = Some (clamp_transpose a ns_min ns_max lo hi).
+Proof. exact NS.Proofs.TrEquiv10.tr_clamp_transpose_eq. Qed.
+Print Assumptions C10_source_clamp_transpose.
+
+(** Melody.transpose is an element-wise loop; the translation of its body from the SOURCE equals the
+    hand-written per-event function [mel_event] (of which C10_melody_transpose_fold etc. speak). *)
+Theorem C10_source_melody_transpose_event : forall k lo hi e,
+  NS.Gen.Tr.tr_melody_transpose_event k lo hi e = Some (mel_event k lo hi e).
+Proof. exact NS.Proofs.TrEquiv10.tr_melody_transpose_event_eq. Qed.
+Print Assumptions C10_source_melody_transpose_event.
